@@ -135,6 +135,18 @@ func worker(t *testing.T) {
 		s.Prop = prop
 		t0 := time.Now()
 		res := e.Run(t, s)
+		if n%25 == 3 && res.Infra == "" && res.V == nil {
+			// determinism sample: the same script again must give the same event trace
+			r2 := e.Run(t, s)
+			res.stat("determinism_sampled", 1)
+			if r2.TraceHash == res.TraceHash && r2.V == nil {
+				res.stat("determinism_same_trace", 1)
+			} else if r2.Shape == res.Shape && r2.V == nil {
+				res.stat("determinism_same_outcomes_different_trace", 1)
+			} else {
+				res.stat("determinism_different_outcomes", 1)
+			}
+		}
 		l := outLine{Kind: "run", I: i, Seed: rseed, Engine: e.Name(), Res: res, Wall: time.Since(t0).Seconds()}
 		if n < 2 {
 			for _, o := range s.Ops {
